@@ -125,6 +125,22 @@ fn gate_to_h(g: &quizx::gate::Gate) -> Option<HGate> {
     Some(HGate { k, qs: g.qs.clone() })
 }
 
+/// Every gate of every generated circuit acts on distinct qubits within range.
+fn check_gate_arguments(c: &Circuit) -> Result<(), String> {
+    for g in &c.gates {
+        let mut s = g.qs.clone();
+        s.sort();
+        s.dedup();
+        if s.len() != g.qs.len() {
+            return Err(format!("{:?} with repeated qubit arguments {:?}", g.t, g.qs));
+        }
+        if g.qs.iter().any(|&q| q >= c.num_qubits()) {
+            return Err(format!("{:?} on a qubit out of range: {:?} (circuit has {} qubits)", g.t, g.qs, c.num_qubits()));
+        }
+    }
+    Ok(())
+}
+
 fn check_random(c: &Circuit, qubits: usize, depth: usize, probs: [f32; 5]) -> Result<(), String> {
     if c.num_qubits() != qubits {
         return Err(format!("circuit has {} qubits, asked for {}", c.num_qubits(), qubits));
@@ -234,6 +250,12 @@ impl C19 {
         let fail = |out: &mut RunOut, class: &str, why: String, gen: &str| {
             out.violations.push(Violation::new(class, why).with("generator", gen));
         };
+        if let Obj::Circ(c) | Obj::CircShift(c, _) = obj {
+            if let Err(why) = check_gate_arguments(c) {
+                fail(out, "promise_broken", format!("{:?} (seed {}): {why}", sc.gen, sc.seed), gen_name(&sc.gen));
+                return;
+            }
+        }
         match (&sc.gen, obj) {
             (Gen::Random { qubits, depth, p, preset }, Obj::Circ(c)) => {
                 let probs: [f32; 5] = match preset {
@@ -268,7 +290,6 @@ impl C19 {
                 let bits: Vec<bool> = shift.iter().map(|&b| b != 0).collect();
                 let amp = &st[gatesim::idx_of(&bits)];
                 let p = amp.norm_sqr();
-                out.ev(hash_str(&p.show()));
                 if p != Zw::one() {
                     let (re, _) = p.to_c64();
                     fail(
@@ -430,7 +451,7 @@ impl Property for C19 {
             "stab_state" => Gen::StabState { qubits: 1 + d.choose("ss.q", 8), hash_backend: d.coin("ss.hb", 1, 2) },
             _ => Gen::SurfaceCode { distance: 2 + d.choose("sc.d", 3), rounds: d.choose("sc.r", 4) },
         };
-        Sc { gen, seed, via_child: d.coin("child", 1, 50) }
+        Sc { gen, seed, via_child: d.coin("child", 1, 12) }
     }
 
     fn execute(&self, sc: &Sc, _sub: &str, exec: Decider, env: &Env) -> RunOut {
@@ -471,7 +492,9 @@ impl Property for C19 {
                 return out;
             }
         };
-        out.ev(obj_digest(&a));
+        // NOTE: the object's digest is deliberately NOT folded into the event digest: whether
+        // it is the same in another execution is the property under test, not the harness's
+        // own determinism (which the framework's self-check is about).
         if core.stats.rng_draws > 0 {
             out.violations.push(
                 Violation::new(
@@ -560,9 +583,6 @@ impl Property for C19 {
         }
         out.ev(dec.digest);
         out.exec_trace = dec.values();
-        for v in &out.violations {
-            out.event_digest = mix(out.event_digest, hash_str(&v.key()));
-        }
         out.sample = Some(json!({"scenario": sc, "object_size": obj_size(&a), "object_digest": format!("{:016x}", obj_digest(&a))}));
         out
     }
